@@ -10,6 +10,7 @@ EXPLANATION = (
     "dispatch of NtsRecord::parse agrees with record_type() (critical bit folded) for every variant the helpers construct; "
     "the u16 codecs of AeadAlgorithm/NextProtocol/ErrorCode/WarningCode are mutually inverse; no reachable panic in the "
     "parsers and serializers."
+    ' The 16-bit length header of every record variant (body_size) equals the bytes serialize writes for it.'
 )
 NOT_DECIDED = ["value-level round-trip equality of records, requests and responses"]
 R = 'ntp_proto::nts::record::NtsRecord'
